@@ -320,7 +320,7 @@ func containsStr(s, sub string) bool {
 func init() {
 	register(&Check{
 		ID: "C13", Level: "exploration",
-		NCases: func(t string) int { return tier(t, 200, 3000) },
+		NCases: func(t string) int { return tier(t, 200, 1500) },
 		Run:    runC13,
 		Rule: "[also: a fifth of the RAM-mode histories run on a handle that merged before the history; a fifth drain a bucket, merge and re-put half way (list-free)] case = seeded history of multi-operation write transactions (2-12 operations over KV, lists, sets, sorted sets in KeyVal mode; KV in KeyOnly/sparse) that deliberately read, peek and pop the structures they have just modified and repeat pops/trims; every returned value and the full observation after the commit are compared with running the operations one after another on the state at the start; " +
 			"a mismatch is classified by an executable alternative model (call evaluated on the state committed at transaction start) - only an exact match is attributed to the known finding; non-trivial = >=5 self-reads in the history; distinct by history hash",
